@@ -8,6 +8,7 @@ pub mod c07;
 pub mod c08;
 pub mod c10;
 pub mod c13;
+pub mod c14;
 
 pub fn scenario_for(property: &str) -> Option<ScenarioFn> {
     match property {
@@ -17,6 +18,7 @@ pub fn scenario_for(property: &str) -> Option<ScenarioFn> {
         "C08" => Some(c08::run),
         "C10" => Some(c10::run),
         "C13" => Some(c13::run),
+        "C14" => Some(c14::run),
         _ => None,
     }
 }
